@@ -41,6 +41,10 @@ func NewReader() *MIDIReader {
 
 type MIDIReader struct{}
 
+// MaxReadableTracks is the number of tracks the reader can count: gomidi numbers the tracks of
+// a file with an int16 and panics beyond it.
+const MaxReadableTracks = 1 << 15
+
 func (r MIDIReader) read(rd io.Reader) *smf.TracksReader {
 	return smf.ReadTracksFrom(rd)
 }
